@@ -41,7 +41,7 @@ CONSTANTS SpaceIds,   \* subset of the catalogue below
           LinRule, GradRule
 
 VARIABLES cfg,   \* [normalize, useDb, storeJac, roundInts : BOOLEAN]  (preprocess_functions arguments)
-          sp,    \* id of the design space
+          sp,    \* the design space: [id, intNorm, comps, pts (physical request points), inert]
           db,    \* sequence of [key, vals : fn -> vector | <<>>, jacs : fn -> matrix | <<>>]
           orig,  \* orig[f][kind] : sequence of the points at which the ORIGINAL callable was called
           ret    \* last return
@@ -88,9 +88,9 @@ PhysPts(id) ==
 \* requests that only exist in normalised coordinates: a non-zero value of the INERT coordinate of
 \* a component whose bounds coincide (same physical point as the first request)
 InertReqs(id) ==
-  CASE id = "equal"  -> { <<R(3, 4), R(1, 2)>> }
-    [] id = "mixed3" -> { <<R(5, 8), R(1, 2), R(5, 2)>> }
-    [] OTHER -> {}
+  CASE id = "equal"  -> << <<R(3, 4), R(1, 2)>> >>
+    [] id = "mixed3" -> << <<R(5, 8), R(1, 2), R(5, 2)>> >>
+    [] OTHER -> <<>>
 
 (***************************************************************************)
 (* The user's functions and their exact Jacobians (values scaled by S).    *)
@@ -99,7 +99,7 @@ InertReqs(id) ==
 (*   lv(x) = A x + b,  A = H/2 (half-integers), b = (1, 0)    (vector)     *)
 (*   ls(x) = a.x + 2,  a = h/2                                (scalar)     *)
 (***************************************************************************)
-SumTo(g(_), n) == IF n = 1 THEN g(1) ELSE IF n = 2 THEN g(1) + g(2) ELSE g(1) + g(2) + g(3)   \* n <= 3
+Sum(s) == IF Len(s) = 1 THEN s[1] ELSE IF Len(s) = 2 THEN s[1] + s[2] ELSE s[1] + s[2] + s[3]   \* Len(s) <= 3
 Mul(a, b) == Div(a * b, S)
 IsLinear(f) == f \in {"ls", "lv"}
 NOut(f) == IF f \in {"qs", "ls"} THEN 1 ELSE 2
@@ -107,16 +107,15 @@ H(f, r, i) == IF f = "lv" THEN (IF r = 1 THEN 2 * i ELSE (IF i = 1 THEN 6 ELSE -
               ELSE (IF i = 1 THEN 1 ELSE (IF i = 2 THEN -4 ELSE 3))
 B(f, r) == IF f = "lv" THEN (IF r = 1 THEN S ELSE 0) ELSE 2 * S
 
-QsVal(p) == LET n == Len(p)
-                sq(i) == Mul(p[i], p[i]) + (i + 1) * p[i]
-            IN SumTo(sq, n) + Mul(p[1], p[n])
+QsVal(p) == LET n == Len(p) IN
+            Sum([i \in 1..n |-> Mul(p[i], p[i]) + (i + 1) * p[i]]) + Mul(p[1], p[n])
 QsGrad(p) == LET n == Len(p) IN
    [i \in 1..n |-> 2 * p[i] + (i + 1) * S + (IF i = 1 THEN p[n] ELSE 0) + (IF i = n THEN p[1] ELSE 0)]
 Q2Val(p) == Mul(p[1], p[Len(p)]) - p[1]
 Q2Grad(p) == LET n == Len(p) IN
    [i \in 1..n |-> (IF i = 1 THEN p[n] - S ELSE 0) + (IF i = n THEN p[1] ELSE 0)]
 LinVal(f, p) == [r \in 1..NOut(f) |->
-                   LET t(i) == H(f, r, i) * p[i] IN Div(SumTo(t, Len(p)), 2) + B(f, r)]
+                   Div(Sum([i \in 1..Len(p) |-> H(f, r, i) * p[i]]), 2) + B(f, r)]
 LinJac(f, n) == [r \in 1..NOut(f) |-> [i \in 1..n |-> Div(H(f, r, i) * S, 2)]]
 
 F(f, p) == CASE f = "qs" -> <<QsVal(p)>>
@@ -174,12 +173,15 @@ LinNormVal(D, f, x) ==
     LET shift == [i \in 1..DimOf(D) |-> IF MaskD(D, i) THEN D.comps[i].lb ELSE 0]
         v0 == F(f, shift)
         cn == LinNormCoef(D, f)
-    IN [r \in 1..NOut(f) |-> LET t(i) == cn[r][i] * x[i] IN Div(SumTo(t, DimOf(D)), S) + v0[r]]
+    IN [r \in 1..NOut(f) |-> Div(Sum([i \in 1..DimOf(D) |-> cn[r][i] * x[i]]), S) + v0[r]]
 
 (***************************************************************************)
 (* State-level shorthands.                                                 *)
 (***************************************************************************)
-D0 == Space(sp)
+SpaceRec(id) == [id |-> id, intNorm |-> Space(id).intNorm, comps |-> Space(id).comps,
+                 pts |-> SubSeq(PhysPts(id), 1, NPts),
+                 inert |-> IF NPts >= 3 THEN InertReqs(id) ELSE <<>>]
+D0 == sp
 Dim == DimOf(D0)
 HasInt == HasIntD(D0)
 RI == cfg.roundInts /\ HasInt          \* preprocess_functions keeps round_ints only with an integer variable
@@ -188,15 +190,23 @@ RoundVect(p) == RoundVectD(D0, p)
 NormVect(p) == NormVectD(D0, p)
 NormGrad(J) == NormGradD(D0, J)
 UnnormGrad(J) == UnnormGradD(D0, J)
-Pts == {PhysPts(sp)[i] : i \in 1..NPts}
+Pts == {sp.pts[i] : i \in 1..Len(sp.pts)}
 MemberPts == {p \in Pts : MemberD(D0, p)}
 \* what a caller may pass to a problem function: a point in the coordinates the functions expect
-Requests == IF cfg.normalize
-            THEN {NormVect(p) : p \in Pts} \cup (IF NPts >= 3 THEN InertReqs(sp) ELSE {})
-            ELSE Pts
+ReqSeq == IF cfg.normalize
+          THEN [i \in 1..Len(sp.pts) |-> NormVect(sp.pts[i])] \o sp.inert
+          ELSE sp.pts
+Requests == {ReqSeq[i] : i \in 1..Len(ReqSeq)}
+MaxReq == 4
 
 NoVals == [f \in FnSet |-> <<>>]
-NoRet == [kind |-> "none", x |-> <<>>, outs |-> NoVals, jacs |-> NoVals, hitF |-> {}, hitJ |-> {}]
+\* ret: kind/call identify the last public call (call = <<name, arguments...>> as the driver issues it),
+\* x the point in the coordinates the functions expect, outs/jacs what was returned per function,
+\* hitF/hitJ which of them were served from the database, frac whether the request has a non-integral
+\* integer component before any rounding (an observation used to classify findings)
+NoRet == [kind |-> "none", call |-> <<"none">>, x |-> <<>>, outs |-> NoVals, jacs |-> NoVals,
+          hitF |-> {}, hitJ |-> {}, frac |-> FALSE]
+Frac(x) == LET u == IF cfg.normalize THEN UnnormRawD(D0, x) ELSE x IN u # RoundVect(u)
 
 (***************************************************************************)
 (* _preprocess_function: the evaluation sequences.                         *)
@@ -268,32 +278,46 @@ Cur == [db |-> db, orig |-> orig]
 (***************************************************************************)
 (* Actions.                                                                *)
 (***************************************************************************)
-Init == /\ cfg \in [normalize : BOOLEAN, useDb : BOOLEAN, storeJac : BOOLEAN, roundInts : BOOLEAN]
-        /\ sp \in SpaceIds
+CfgSpace == [normalize : BOOLEAN, useDb : BOOLEAN, storeJac : BOOLEAN, roundInts : BOOLEAN]
+Init == /\ cfg \in CfgSpace
+        /\ sp \in {SpaceRec(id) : id \in SpaceIds}
         /\ db = <<>>
         /\ orig = [f \in FnSet |-> [k \in Kinds |-> <<>>]]
         /\ ret = NoRet
 
+\* bounded exploration: behaviours of at most MaxLevel states with at most MaxCalls original calls
+\* (run with deadlock checking off)
+NCalls == Sum([i \in 1..Len(Fns) |-> Len(orig[Fns[i]]["f"]) + Len(orig[Fns[i]]["j"])])
+Guard == TLCGet("level") < MaxLevel /\ NCalls < MaxCalls
+
 \* problem.<function>.evaluate(x)
-EvalF(f, x) == LET r == StepF(Cur, f, x) IN
-    /\ db' = r.db /\ orig' = r.orig
-    /\ ret' = [NoRet EXCEPT !.kind = "F", !.x = x, !.outs[f] = r.out,
-                            !.hitF = IF r.hit THEN {f} ELSE {}]
+EvalF(f, i) ==
+    /\ Guard /\ i <= Len(ReqSeq)
+    /\ LET x == ReqSeq[i]
+           r == StepF(Cur, f, x) IN
+       /\ db' = r.db /\ orig' = r.orig
+       /\ ret' = [NoRet EXCEPT !.kind = "F", !.call = <<"EvalF", f, x>>, !.x = x, !.outs[f] = r.out,
+                               !.hitF = IF r.hit THEN {f} ELSE {}, !.frac = Frac(x)]
     /\ UNCHANGED <<cfg, sp>>
 
 \* problem.<function>.jac(x)
-EvalJ(f, x) == LET r == StepJ(Cur, f, x) IN
-    /\ db' = r.db /\ orig' = r.orig
-    /\ ret' = [NoRet EXCEPT !.kind = "J", !.x = x, !.jacs[f] = r.out,
-                            !.hitJ = IF r.hit THEN {f} ELSE {}]
+EvalJ(f, i) ==
+    /\ Guard /\ i <= Len(ReqSeq)
+    /\ LET x == ReqSeq[i]
+           r == StepJ(Cur, f, x) IN
+       /\ db' = r.db /\ orig' = r.orig
+       /\ ret' = [NoRet EXCEPT !.kind = "J", !.call = <<"EvalJ", f, x>>, !.x = x, !.jacs[f] = r.out,
+                               !.hitJ = IF r.hit THEN {f} ELSE {}, !.frac = Frac(x)]
     /\ UNCHANGED <<cfg, sp>>
 
 \* problem.evaluate_functions(v, design_vector_is_normalized = given, jacobian_functions = () | None):
 \* _preprocess_inputs converts v into the coordinates the functions expect (check_membership first:
 \* only members are passed), then all outputs in order, then all Jacobians in order.
-EvalAll(p, given, withJac) ==
-    /\ p \in MemberPts
-    /\ LET v  == IF given THEN NormVect(p) ELSE p
+EvalAll(i, given, withJac) ==
+    /\ Guard /\ i <= Len(sp.pts)
+    /\ sp.pts[i] \in MemberPts
+    /\ LET p  == sp.pts[i]
+           v  == IF given THEN NormVect(p) ELSE p
            x  == IF given /\ ~cfg.normalize THEN UnnormVect(v)
                  ELSE IF ~given /\ cfg.normalize THEN NormVect(v) ELSE v
            f1 == Fns[1]
@@ -303,7 +327,7 @@ EvalAll(p, given, withJac) ==
            b1 == IF withJac THEN StepJ(a2, f1, x) ELSE a2
            b2 == IF withJac THEN StepJ(b1, f2, x) ELSE a2
        IN /\ db' = b2.db /\ orig' = b2.orig
-          /\ ret' = [kind |-> "All", x |-> x,
+          /\ ret' = [kind |-> "All", call |-> <<"EvalAll", v, given, withJac>>, x |-> x, frac |-> FALSE,
                      outs |-> [f \in FnSet |-> IF f = f2 THEN a2.out ELSE a1.out],
                      jacs |-> [f \in FnSet |-> IF ~withJac THEN <<>> ELSE (IF f = f2 THEN b2.out ELSE b1.out)],
                      hitF |-> {f \in FnSet : (f = f1 /\ a1.hit) \/ (f = f2 /\ a2.hit)},
@@ -311,17 +335,19 @@ EvalAll(p, given, withJac) ==
     /\ UNCHANGED <<cfg, sp>>
 
 \* a second preprocess_functions(...) with any arguments changes nothing (idempotent)
-Preprocess(c) == /\ c # cfg /\ ret.kind # "Pre"
-                 /\ ret' = [NoRet EXCEPT !.kind = "Pre"]
+Flipped == [normalize |-> ~cfg.normalize, useDb |-> ~cfg.useDb, storeJac |-> ~cfg.storeJac,
+            roundInts |-> ~cfg.roundInts]
+Preprocess(c) == /\ Guard
+                 /\ c = Flipped /\ ret.kind # "Pre"      \* one representative of "any other arguments"
+                 /\ ret' = [NoRet EXCEPT !.kind = "Pre", !.call = <<"Preprocess", c>>]
                  /\ UNCHANGED <<cfg, sp, db, orig>>
 
-Next == \/ \E f \in FnSet, x \in Requests : EvalF(f, x) \/ EvalJ(f, x)
-        \/ \E p \in Pts, g \in BOOLEAN, wj \in BOOLEAN : EvalAll(p, g, wj)
-        \/ Preprocess([normalize |-> ~cfg.normalize, useDb |-> ~cfg.useDb,
-                       storeJac |-> ~cfg.storeJac, roundInts |-> ~cfg.roundInts])
+Next == \/ \E f \in FnSet, i \in 1..MaxReq : EvalF(f, i)
+        \/ \E f \in FnSet, i \in 1..MaxReq : EvalJ(f, i)
+        \/ \E i \in 1..3, g \in BOOLEAN, wj \in BOOLEAN : EvalAll(i, g, wj)
+        \/ \E c \in CfgSpace : Preprocess(c)
 Spec == Init /\ [][Next]_vars
 
-NCalls == LET c(i) == Len(orig[Fns[i]]["f"]) + Len(orig[Fns[i]]["j"]) IN SumTo(c, Len(Fns))
 Bounded == NCalls <= MaxCalls /\ TLCGet("level") <= MaxLevel
 
 (***************************************************************************)
@@ -395,7 +421,5 @@ CalibPoints(id) == LET D == Space(id)
                    IN P \cup {RoundVectD(D, p) : p \in P}
 Calib == \A id \in SpaceIds : \A p \in CalibPoints(id) : \A f \in FnSet :
             PrintT(<<"CALIB", id, f, p, F(f, p), DF(f, p)>>)
-\* the space catalogue, for the driver to build the real DesignSpace objects
-Catalogue == \A id \in SpaceIds : PrintT(<<"SPACE", id, Space(id)>>)
-Post == Calib /\ Catalogue
+ASSUME Calib
 ================================================================================
